@@ -8,77 +8,14 @@
 (* in X is recovered exactly; y -> c*y + d maps coefficients/fitted/SDEC and keeps R2; an invertible integer re-    *)
 (* mixing X -> X M keeps the fitted values and maps the slopes by M^-1; 0 <= R2 <= 1.                               *)
 (* The generator emits every case with its exact results (PrintT "@@" json) for replay into MLR / MLRPredictY.       *)
-(* Bounds: entries in -2..2, n <= 5, p <= 2: |det D'D| <= 2000, every intermediate stays below 2^31 (an overflow is *)
-(* an error of TLC, never a verdict).                                                                             *)
-EXTENDS RatLA, TLC, Json
+(* The definitions and theorem operators live in MlrDefs.tla (shared with TraceMlr.tla and MlrHist.tla); this module is the   *)
+(* case generator.  Added with the location class: TSS in its one-pass and two-pass form agree and do not move with y,       *)
+(* predictors moved by a constant keep slopes and fitted values (intercept b0 - h.b), the explicit-inverse kernel agrees      *)
+(* with Cramer, regression through the origin has residuals orthogonal to the predictors.                                    *)
+EXTENDS MlrDefs, TLC, Json
 CONSTANTS Mode,          \* "all": every (X, y) of shape NN x PP;  "sample": Chains chains of Samples random cases, n in 3..5, p in 1..2
           NN, PP, Samples, Chains,
           Slice          \* "all" mode only: 0 = every X; 1..5 = only the X with X[1][1] = Slice - 3 (splits a large enumeration into five runs)
-Vals == -2..2
-
-\* ---- definitions --------------------------------------------------------------------------------------------------
-RECURSIVE ISumTo(_, _)
-ISumTo(f, m) == IF m = 0 THEN 0 ELSE f[m] + ISumTo(f, m - 1)
-SumInt(f) == ISumTo(f, Len(f))
-Design(X) == [i \in 1..Len(X) |-> <<1>> \o X[i]]
-Gram(D) == [a \in 1..Len(D[1]) |-> [b \in 1..Len(D[1]) |-> SumInt([i \in 1..Len(D) |-> D[i][a] * D[i][b]])]]
-Moment(D, y) == [a \in 1..Len(D[1]) |-> SumInt([i \in 1..Len(D) |-> D[i][a] * y[i]])]
-\* reference definition: rational Gauss-Jordan with row exchange (RatLA)
-CoefGJ(X, y) == LET D == Design(X)  v == Moment(D, y)  S == SolveInt(Gram(D), [a \in 1..Len(v) |-> <<v[a]>>]) IN [a \in 1..Len(v) |-> S[2][a][1]]
-\* second, independent exact solver used for the bulk of the work: Cramer's rule in integer arithmetic; the coefficients are
-\* kept over the common denominator det(D'D) > 0:  b[a] = num[a] / det
-Det2(A) == A[1][1] * A[2][2] - A[1][2] * A[2][1]
-Det3(A) == A[1][1] * (A[2][2] * A[3][3] - A[2][3] * A[3][2]) - A[1][2] * (A[2][1] * A[3][3] - A[2][3] * A[3][1])
-           + A[1][3] * (A[2][1] * A[3][2] - A[2][2] * A[3][1])
-Det(A) == IF Len(A) = 2 THEN Det2(A) ELSE Det3(A)
-Repl(A, c, v) == [i \in 1..Len(A) |-> [j \in 1..Len(A) |-> IF j = c THEN v[i] ELSE A[i][j]]]
-CoefCD(X, y) == LET D == Design(X)  G == Gram(D)  v == Moment(D, y) IN [num |-> [c \in 1..Len(G) |-> Det(Repl(G, c, v))], det |-> Det(G)]
-FullRank(X) == Det(Gram(Design(X))) # 0
-Rat(cd) == [a \in 1..Len(cd.num) |-> Norm(cd.num[a], cd.det)]
-Coef(X, y) == Rat(CoefCD(X, y))
-PredNum(cd, x) == cd.num[1] + SumInt([j \in 1..Len(x) |-> cd.num[j + 1] * x[j]])            \* (intercept + x . slopes) * det
-FittedNum(X, cd) == [i \in 1..Len(X) |-> PredNum(cd, X[i])]
-ResidNum(X, y, cd) == [i \in 1..Len(X) |-> PredNum(cd, X[i]) - y[i] * cd.det]                \* the library's sign: fitted - observed
-Fitted(X, cd) == [i \in 1..Len(X) |-> Norm(PredNum(cd, X[i]), cd.det)]
-Resid(X, y, cd) == LET r == ResidNum(X, y, cd) IN [i \in 1..Len(X) |-> Norm(r[i], cd.det)]
-RssOf(r) == RSum([i \in 1..Len(r) |-> RSq(r[i])])
-Rss(X, y, cd) == RssOf(Resid(X, y, cd))
-Tss(y) == LET n == Len(y)  s == SumInt(y)  q == SumInt([i \in 1..n |-> y[i] * y[i]]) IN Norm(n * q - s * s, n)   \* sum y^2 - (sum y)^2/n
-R2Of(rss, tss) == RSub(ROne, RDiv(rss, tss))
-Sdec2Of(rss, n) == RDiv(rss, RI(n))
-
-\* ---- theorems (each takes the case and its coefficients cd = CoefCD(X, y)) -----------------------------------------
-ThSolvers(X, y, cd) == CoefGJ(X, y) = Rat(cd)
-ThNormal(X, y, cd) == LET r == ResidNum(X, y, cd) IN
-   /\ SumInt(r) = 0
-   /\ \A j \in 1..Len(X[1]) : SumInt([i \in 1..Len(X) |-> r[i] * X[i][j]]) = 0
-\* least-squares optimality against every competing coefficient vector over {-1,0,1}
-Competitors(p) == [1..(p + 1) -> {-1, 0, 1}]
-LinearIn(X, c) == [i \in 1..Len(X) |-> c[1] + SumInt([j \in 1..Len(X[1]) |-> c[j + 1] * X[i][j]])]
-IntRss(X, y, c) == LET f == LinearIn(X, c) IN SumInt([i \in 1..Len(X) |-> (f[i] - y[i]) * (f[i] - y[i])])
-ThMinimal(X, y, cd) == LET best == Rss(X, y, cd) IN \A c \in Competitors(Len(X[1])) : RLeq(best, RI(IntRss(X, y, c)))
-\* y exactly linear in X is recovered exactly
-RecoverSet(p) == IF p = 1 THEN { <<-1, 2>>, <<2, -1>> } ELSE { <<-1, 2, 2>>, <<2, -1, 1>> }
-ThRecover(X) == \A c \in RecoverSet(Len(X[1])) :
-   LET yl == LinearIn(X, c)  cd == CoefCD(X, yl) IN
-   /\ Rat(cd) = [a \in 1..(Len(X[1]) + 1) |-> RI(c[a])]
-   /\ \A i \in 1..Len(X) : ResidNum(X, yl, cd)[i] = 0
-AffinePairs == {<<2, 1>>, <<-1, 3>>}
-ThAffine(X, y, cd) == LET b == Rat(cd)  rss == Rss(X, y, cd)  t == Tss(y) IN \A k \in AffinePairs :
-   LET y2 == [i \in 1..Len(y) |-> k[1] * y[i] + k[2]]  cd2 == CoefCD(X, y2)  rss2 == Rss(X, y2, cd2) IN
-   /\ Rat(cd2) = [a \in 1..Len(b) |-> IF a = 1 THEN RAdd(RMul(RI(k[1]), b[1]), RI(k[2])) ELSE RMul(RI(k[1]), b[a])]
-   /\ rss2 = RMul(RI(k[1] * k[1]), rss)                                                   \* so SDEC scales by |c|
-   /\ (IsZ(t) \/ R2Of(rss2, Tss(y2)) = R2Of(rss, t))                                      \* R2 unchanged
-\* invertible integer re-mixings of the predictors
-Mixes(p) == IF p = 1 THEN { <<<<2>>>>, <<<<-1>>>> } ELSE { <<<<2, 1>>, <<1, 1>>>>, <<<<1, -1>>, <<1, 1>>>> }
-MixX(X, M) == [i \in 1..Len(X) |-> [j \in 1..Len(M[1]) |-> SumInt([h \in 1..Len(M) |-> X[i][h] * M[h][j]])]]
-ThRemix(X, y, cd) == LET f == Fitted(X, cd)  b == Rat(cd) IN \A M \in Mixes(Len(X[1])) :
-   LET X2 == MixX(X, M)  cd2 == CoefCD(X2, y)  b2 == Rat(cd2) IN
-   /\ Fitted(X2, cd2) = f
-   /\ b2[1] = b[1]
-   /\ \A h \in 1..Len(M) : b[h + 1] = RSum([j \in 1..Len(M[1]) |-> RMul(RI(M[h][j]), b2[j + 1])])      \* slopes = M . new slopes
-ThR2Range(X, y, cd) == IsZ(Tss(y)) \/ LET r == R2Of(Rss(X, y, cd), Tss(y)) IN RLeq(RZero, r) /\ RLeq(r, ROne)
-
 \* ---- generator ----------------------------------------------------------------------------------------------------
 VARIABLES cid, X, y, ok
 mvars == <<cid, X, y, ok>>
@@ -99,6 +36,9 @@ Spec == Init /\ [][Next]_mvars
 
 Theorems == ok => LET cd == CoefCD(X, y) IN
    /\ ThSolvers(X, y, cd) /\ ThNormal(X, y, cd) /\ ThMinimal(X, y, cd) /\ ThRecover(X) /\ ThAffine(X, y, cd) /\ ThRemix(X, y, cd) /\ ThR2Range(X, y, cd)
+   \* the location / kernel / through-the-origin theorems on every case of the 3x1 enumeration and of the random shapes; the five 4x1 slices of the
+   \* thorough tier (Slice # 0, 387,500 cases) keep to the theorems above (time budget)
+   /\ ((Mode = "all" /\ Slice # 0) \/ (ThTss(y) /\ ThShiftX(X, y, cd) /\ ThKernel(X, y, cd) /\ ThOrigin(X, y)))
 
 \* two fixed unseen objects per width, with their exact predictions
 Unseen(p) == IF p = 1 THEN <<<<3>>, <<-4>>>> ELSE <<<<3, -3>>, <<1, 4>>>>
